@@ -9,7 +9,7 @@ around it - they do not decide what searchsorted returns.
 from __future__ import annotations
 
 import ast
-from typing import Dict, List, Optional, Tuple
+from typing import Dict, List, Optional, Set, Tuple
 
 from . import canon as C
 from .canon import Env
@@ -603,6 +603,92 @@ def mul_scalar_spec(ctx, rule: str = 'R09.6') -> List[Ob]:
         asg = {ast.unparse(s.targets[0]): ast.unparse(s.value) for s in init.node.body if isinstance(s, ast.Assign)}
         good = all(asg.get(f"self.{a}") == f"np.array({p_})" for a, p_ in zip(attrs, ps))
         _req(obs, rule, init, "constructor stores each argument into its own attribute (breakpoints, values ... in order)", good, str(asg), 'init-order')
+    return obs
+
+
+# ======================================================================================
+# add(): the object's arrays are replaced by the result of the add kernel on every path (R09.9, R06.8, R11.7)
+# ======================================================================================
+CLASS_ARRAYS = (('PieceWiseConstFunc', ['x', 'y']), ('PieceWiseLinFunc', ['x', 'y1', 'y2']), ('DiscreteFunc', ['x', 'y', 'mp']))
+
+
+def add_method_spec(ctx, rule: str = 'R09.9', classes: Optional[Set[str]] = None) -> List[Ob]:
+    """Every path through `C.add(self, f)` that returns stores, into each array attribute of self, the matching
+    component of ONE call of the add kernel (the function bound by the backend-selection imports of the method) on
+    (self's arrays in order, f's arrays in order) - and stores nothing else.  A shortcut that bypasses the kernel, a
+    partial update, or a swapped component is a violation: the sum would not be the pointwise sum on that path."""
+    repo = ctx.repo
+    obs: List[Ob] = []
+    for cls, attrs in CLASS_ARRAYS:
+        if classes is not None and cls not in classes:
+            continue
+        fi = repo.func(f"pyspike.{cls}", f"{cls}.add")
+        ps = [a.arg for a in fi.node.args.args]
+        title = (f"every path replaces ({', '.join('self.' + a for a in attrs)}) by the add kernel's result on "
+                 f"(self's arrays, the operand's arrays) and stores nothing else")
+        if len(ps) != 2:
+            obs.append(inconclusive(rule, f"{fi.name}: add(self, f)", fi.loc(), str(ps), construct=f"{_fn(fi)}::paths"))
+            continue
+        me, other = ps
+        imported = set()
+        for n in ast.walk(fi.node):
+            if isinstance(n, ast.ImportFrom):
+                for a in n.names:
+                    if a.name.startswith('add_'):
+                        imported.add(a.asname or a.name)
+        try:
+            mp = MethodPaths(fi).run()
+        except (Inconclusive, C.CanonError) as e:
+            obs.append(inconclusive(rule, f"{fi.name}: {title}", fi.loc(), str(e), construct=f"{_fn(fi)}::paths"))
+            continue
+        env0 = Env()
+        want_args = tuple(C.canon_expr(ast.parse(f"{o}.{a}", mode='eval').body, env0) for o in (me, other) for a in attrs)
+        n_ok = 0
+        bad = None
+        for v, conds, env_, stores, node in mp.results:
+            cs = set(conds)
+            if any(C.mk_not(c) in cs for c in cs):
+                continue
+            got = {}
+            extra = []
+            for key, rec in stores:
+                if key.startswith('attr:' + me + '.') and key.split('.', 1)[1] in attrs and key not in got:
+                    got[key] = rec
+                else:
+                    extra.append(key)
+            problem = None
+            if extra:
+                problem = f"also stores {sorted(set(extra))}"
+            call = None
+            for k, a in enumerate(attrs):
+                rec = got.get(f"attr:{me}.{a}")
+                if rec is None:
+                    problem = problem or f"self.{a} is not replaced"
+                    continue
+                sa = C.single_atom(rec[2]) if C.is_poly(rec[2]) else None
+                if sa is None or sa[0] != 'proj' or sa[2] != k:
+                    problem = problem or f"self.{a} = {C.show(rec[2])[:120]} (expected component {k} of the kernel result)"
+                    continue
+                inner = C.single_atom(sa[1]) if C.is_poly(sa[1]) else None
+                if inner is None or inner[0] != 'call' or inner[1] not in imported or tuple(inner[2]) != want_args \
+                        or (len(inner) > 3 and inner[3]):
+                    problem = problem or f"self.{a} comes from {C.show(sa[1])[:140]}"
+                    continue
+                if call is not None and call != sa[1]:
+                    problem = problem or "the components come from different kernel calls"
+                call = sa[1]
+            if problem:
+                bad = (problem, conds, node)
+                break
+            n_ok += 1
+        if bad is not None:
+            where = fi.loc(bad[2]) if bad[2] is not None else fi.loc()
+            obs.append(violation(rule, f"{fi.name}: {title}", where, key=f"{_fn(fi)}::add-path::{bad[0][:80]}",
+                                 detail=f"{bad[0]} on the path [{', '.join(C.show(c) for c in bad[1])}]"))
+        elif n_ok == 0:
+            obs.append(inconclusive(rule, f"{fi.name}: {title}", fi.loc(), 'no feasible path', construct=f"{_fn(fi)}::paths"))
+        else:
+            obs.append(ok(rule, f"{fi.name}: {title}", fi.loc(), construct=f"{_fn(fi)}::paths", detail=f"{n_ok} path(s)"))
     return obs
 
 
